@@ -318,6 +318,10 @@ class FuncEmitter:
             (st, sv), dt = v[2], v[3]
             if self.mod.resolve(st)[0] == 'ptr' and self.mod.resolve(dt)[0] == 'ptr':
                 return self.val(sv, st)
+        if op == 'inttoptr':
+            (st, sv), dt = v[2], v[3]
+            if sv[0] == 'int':
+                return 'LL2C_INTPTR(%s)' % ulit(sv[1], 64)
         raise Unsupported('constant expression %r' % (v,))
 
     def undef(self, ty, q=''):
@@ -466,6 +470,9 @@ class FuncEmitter:
             c = {'eq': '==', 'ne': '!=', 'ult': '<', 'ule': '<=', 'ugt': '>', 'uge': '>='}.get(pred)
             if not c:
                 raise Unsupported('signed pointer compare')
+            if 'LL2C_INTPTR(' in a or 'LL2C_INTPTR(' in b:
+                # UBSan pointer-overflow checks compare against inttoptr constants: compare integer addresses
+                return '((u8)(LL2C_PTRTOINT(%s) %s LL2C_PTRTOINT(%s)))' % (a, c, b)
             return '((u8)(%s %s %s))' % (a, c, b)
         n = ty[1]
         if pred in ('eq', 'ne', 'ult', 'ule', 'ugt', 'uge'):
@@ -687,7 +694,11 @@ class FuncEmitter:
             st = m.resolve(ins.extra['src_ty'])
             dt = m.resolve(ins.ty)
             x = self.val(ins.ops[0], st)
-            if op in ('ptrtoint', 'inttoptr', 'addrspacecast'):
+            if op == 'ptrtoint':
+                self.ctx.trusted.add('ptrtoint model: object bases are aligned to 4096 bytes (only used by UBSan alignment/null checks)')
+                self.assign(ins.res, self.trunc_to('LL2C_PTRTOINT(%s)' % x, dt[1]))
+                return
+            if op in ('inttoptr', 'addrspacecast'):
                 raise Unsupported(op)
             if st[0] == 'vector' and dt[0] == 'vector' and st[1] == dt[1] and op != 'bitcast':
                 tx = self.mat(x, st)
@@ -798,7 +809,15 @@ class FuncEmitter:
             return
         if op == 'insertelement':
             vt = m.resolve(ins.ty)
-            self.assign(ins.res, self.base_val(ins.ops[0], vt))
+            base = ins.ops[0]
+            if (base[0] == 'vec' and ins.ops[2][0] == 'int' and 0 <= ins.ops[2][1] < len(base[1])
+                    and base[1][ins.ops[2][1]][1][0] in ('undef', 'poison')):
+                # constant base <poison, c1, ..> whose poison lane is the one being overwritten: that lane is never
+                # observable, so build the base with the inserted value already in place (no poison flag in the T-check)
+                elems = list(base[1])
+                elems[ins.ops[2][1]] = (elems[ins.ops[2][1]][0], ins.ops[1])
+                base = ('vec', elems)
+            self.assign(ins.res, self.base_val(base, vt))
             if ins.ops[2][0] != 'int':
                 raise Unsupported('dynamic insertelement')
             self.out.append('%s.e[%d] = %s;' % (self.lname(ins.res), ins.ops[2][1], self.val(ins.ops[1], vt[2])))
